@@ -303,3 +303,24 @@ Theorem rainbow_clamped_mass_leaks_next_obs_refuted :
     == rb_elem (1 # 2) (-1) 1 1 sup {| r_r := 0; r_d := 1; r_p := renorm (clamp_dist p'); r_logp := logp |}.
 Proof. exact rainbow_clamped_mass_leaks_next_obs_refuted_lemma. Qed.
 Print Assumptions rainbow_clamped_mass_leaks_next_obs_refuted.
+
+(* ================================================================ round 4: learn() must not write into its arguments *)
+From AgileV Require Import C08.ProofsR4.
+
+(* a learner that accumulates its Bellman target in place into the caller's reward tensor: the k+1-th call that sees the
+   same storage uses  r + gamma(1-d)(Q'_1 + ... + Q'_k) + gamma(1-d)Q'_new ; correct on first use and for terminal
+   transitions, wrong otherwise (witness) — whereas the code that never writes uses the defined target on every sweep *)
+Theorem inplace_target_accumulates : forall g r d qs q,
+  target_inplace g r d qs q == bellman r g d q + g * (1 - d) * psum qs /\
+  target_inplace g r d [] q == bellman r g d q /\ (d == 1 -> target_inplace g r d qs q == r) /\
+  target_pure g r d qs q == bellman r g d q.
+Proof.
+  intros g r d qs q.
+  exact (conj (target_inplace_closed g r d qs q) (conj (target_inplace_first_use g r d q)
+          (conj (target_inplace_terminal g r d qs q) (target_pure_is_bellman g r d qs q)))).
+Qed.
+Print Assumptions inplace_target_accumulates.
+
+Theorem inplace_target_refuted : exists g r d q1 q2, ~ target_inplace g r d [q1] q2 == bellman r g d q2.
+Proof. exact target_inplace_refuted_lemma. Qed.
+Print Assumptions inplace_target_refuted.
